@@ -81,3 +81,12 @@ package epubdoc
 //@   loop 0:
 //@     step item_recorded_as_declared: has(manifest, item.ID) && manifest[item.ID].ID == item.ID && manifest[item.ID].Href == item.Href && manifest[item.ID].MediaType == item.MediaType
 //@     step other_items_kept: forall k string :: {manifest[k]} k != item.ID && has(prev(manifest), k) ==> has(manifest, k) && manifest[k] == prev(manifest)[k]
+
+// ---- C02: an archive member read into memory is at most maxPartSize bytes long (or the read is an error) ----
+//@ func readPart results (data, err)
+//@   property C02
+//@   ensures member_size_is_bounded: !err ==> len(data) <= maxPartSize
+//@ func (*Reader) readFile
+//@   property C02
+//@   flags callsites
+//@   callsite io.ReadAll(x) requires members_are_read_through_readPart: false
